@@ -332,6 +332,13 @@ func C20(p *core.Program, r *core.Report) {
 	// ---- F8
 	checkPrunedIsDeleted(p, r)
 
+	// ---- F9: the word counter is chosen from the text of the whole document, pruned subtrees
+	// included. The 500-word decision then only equals that of the page with the subtrees deleted
+	// if the counters agree on text that has none of their own trigger characters. The word
+	// matcher patterns (constants, compiled here) are asked about tokens without CJK/Hangul
+	// characters: every blank-separated matcher must count the same.
+	checkCountersAgree(p, r, "F9")
+
 	// ---- F4: "below a table" means below a table at any depth: the ancestor test climbs until
 	// there is no parent left and answers true only for a matching ancestor
 	if ha := mustInl(p, r, "F4", domutilPkg+".HasAncestor"); ha != nil {
@@ -489,4 +496,44 @@ func checkTwoPassSkeleton(p *core.Program, r *core.Report, rule string) {
 		},
 	}
 	core.CheckDecisionList(r, rule, "ExtractContent", paths, atoms, spec)
+}
+
+func checkCountersAgree(p *core.Program, r *core.Report, rule string) {
+	c := core.NewCanon(p)
+	var pats []string
+	seen := map[string]bool{}
+	for _, fn := range p.ModFunctions(false) {
+		if fn.Name() != "Count" || core.FnPkgPath(fn) != core.ExpandKey("mod/internal/stringutil") {
+			continue
+		}
+		for _, call := range core.Calls(fn, func(ci ssa.CallInstruction) bool { return core.IsCallTo(ci, "(*regexp.Regexp).FindAllString", "(*regexp.Regexp).FindAllStringIndex") }) {
+			rx := c.Of(call.Common().Args[0])
+			if strings.HasPrefix(rx, "rx‹") && !seen[rx] {
+				seen[rx] = true
+				pats = append(pats, strings.TrimSuffix(strings.TrimPrefix(rx, "rx‹"), "›"))
+			}
+		}
+	}
+	sort.Strings(pats)
+	var res []*regexp.Regexp
+	for _, pat := range pats {
+		if re, err := regexp.Compile(pat); err == nil && len(re.FindAllString("ab cd", -1)) == 2 {
+			res = append(res, re)
+		}
+	}
+	if len(res) < 2 {
+		r.Undecided(rule, "word matchers", fmt.Sprintf("%d blank-separated word matchers found in the Count methods", len(res)))
+		return
+	}
+	tokens := []string{"abc", "a1", "42", "x_y", "½", "¾", "×", "÷", "—", "…", "·", "€", "№", "é", "ß", "Ω", "и", "א", "ع", "क", "ก", "’", "it’s", "½cup", "3×4", "(abc)", "µm", "ʻ", "٠"}
+	var bad []string
+	for _, tk := range tokens {
+		n0 := len(res[0].FindAllString("x "+tk+" y", -1))
+		for _, re := range res[1:] {
+			if n := len(re.FindAllString("x "+tk+" y", -1)); n != n0 {
+				bad = append(bad, fmt.Sprintf("%q: %d vs %d", tk, n0, n))
+			}
+		}
+	}
+	r.Add(rule, "the word counters agree on text without CJK/Hangul characters", "", len(bad) == 0, fmt.Sprintf("%d matchers, %d tokens; disagreements: %s", len(res), len(tokens), strings.Join(bad, "; ")))
 }
